@@ -34,6 +34,22 @@ WhyKey(ob, k) ==
   ELSE IF has THEN "augmented-a-call-that-must-be-left-alone:" \o k
   ELSE ""
 
+(* a component defined inside the options of another one is a call like any other: augmented under the same  *)
+(* conditions, and - not being the initialiser of a declaration - never given the outer variable's name        *)
+WhyNested(ob) ==
+  IF ~HasOption(ob, "components") THEN "user-option-lost:components"
+  ELSE LET cs == ObjGet(Eff(ob), "components") IN
+       IF cs.t # "obj" \/ ~ObjHas(cs.es, "Row") \/ ObjGet(cs.es, "Row").t # "component" \/ ObjGet(cs.es, "Row").eff.t # "obj"
+       THEN "nested-component-lost"
+       ELSE LET inner == ObjGet(cs.es, "Row").eff.es
+                nm == IF ObjHas(inner, "name") THEN ObjGet(inner, "name") ELSE Undef
+                pr == IF ObjHas(inner, "props") THEN ObjGet(inner, "props") ELSE Undef
+            IN IF nm.t = "str" /\ nm.s = "C" THEN "nested-component-took-the-variable-name"
+               ELSE IF IsVue(ob) /\ ob.abs.opts.resolveType
+                    THEN (IF pr.t = "propsopt" /\ {pr.es[i][1] : i \in 1..Len(pr.es)} = {"b"} THEN "" ELSE "nested-not-augmented:props")
+               ELSE IF MaybeVue(ob) /\ ob.abs.opts.resolveType THEN ""
+               ELSE IF pr.t # "undef" THEN "augmented-a-call-that-must-be-left-alone:nested-props" ELSE ""
+
 Why(ob, D) ==
   LET no == NoObservation(ob) IN
   IF no # "" THEN no
@@ -41,6 +57,7 @@ Why(ob, D) ==
   ELSE IF ob.drv.ndiag > 0 THEN "reported-as-error"
   ELSE LET bad == {k \in {"props", "emits", "name"} : WhyKey(ob, k) # ""} IN
        IF bad # {} THEN WhyKey(ob, CHOOSE k \in bad : TRUE)
+       ELSE IF ob.abs.shape = "nested" /\ WhyNested(ob) # "" THEN WhyNested(ob)
        ELSE IF UserHas(ob, "inheritAttrs") /\ ~HasOption(ob, "inheritAttrs") THEN "user-option-lost:inheritAttrs"
        ELSE ""
 
